@@ -53,7 +53,14 @@ def _leading_like_message() -> t.Any:
 
 @st.composite
 def unit(draw: t.Any, side: str, nprep: int) -> t.Any:
-    kind = draw(st.sampled_from(["mut", "mut", "mut", "mut", "valid", "rand", "like", "deep", "trunc", "zero-prim"]))
+    kind = draw(st.sampled_from(["mut", "mut", "mut", "mut", "valid", "rand", "like", "deep", "trunc", "zero-prim", "terminator"]))
+    if kind == "terminator":
+        # the designed terminations with generated content: a notice of disconnection (any result, any length of
+        # diagnostic text) or an unbind, sent to either side
+        m = draw(gens.memo("c05.terminator", lambda: st.one_of(
+            gens.message(kinds=["extendedResp"], ids=st.integers(0, 3)).map(lambda m: dict(m, name=_NOTICE)),
+            gens.message(kinds=["unbindRequest"], ids=st.integers(0, 3)))))
+        return ("valid", m, None)
     if kind == "rand":
         return ("rand", draw(st.binary(max_size=48)))
     if kind == "like":
